@@ -243,6 +243,7 @@ func postRun(res *vf.Result, mf MainFinal, scratch string, cp caps, resets []flo
 		}
 	} else {
 		res.Count("final_ack_missing", 1)
+		res.Count("final_ack_missing:"+errClass(fmt.Errorf("%s", mf.AckErr)), 1)
 		res.Logf("%s: no final acknowledgement (%s)", tag, mf.AckErr)
 	}
 
@@ -399,7 +400,7 @@ func imageOf(lf *oracle.LTXFile) []byte {
 // errClass maps a restore error to a short class for the evidence counters.
 func errClass(err error) string {
 	m := err.Error()
-	for _, k := range []string{"checksum", "transaction not available", "no snapshots", "nonsequential", "non-contiguous", "not contiguous", "context deadline", "no such file"} {
+	for _, k := range []string{"checksum", "transaction not available", "no snapshots", "nonsequential", "non-contiguous", "not contiguous", "context deadline", "no such file", "database is locked", "not registered", "database not open"} {
 		if strings.Contains(m, k) {
 			return strings.ReplaceAll(k, " ", "-")
 		}
